@@ -120,8 +120,9 @@ Lemma seg_find_addr_spec s a l : seg_find_addr s a = Some l ->
   l = L (amc a) (g_idx s) /\ g_first s <= amc a /\ (N.to_nat (amc a - g_first s) < length (g_cmds s))%nat.
 Proof.
   unfold seg_find_addr. destruct (N.leb_spec (g_first s) (amc a)); [|discriminate].
+  destruct (N.ltb_spec (amc a - g_first s) (seg_len s)); [|discriminate]. cbn [andb].
   destruct (nth_error _ _) eqn:E; [|discriminate]. destruct (c_id s0 =? aid a); [|discriminate].
-  intro H0; inv H0. repeat split; auto. apply nth_error_Some. congruence.
+  intro E0; inv E0. repeat split; auto. apply nth_error_Some. congruence.
 Qed.
 
 Lemma get_location_in_valid segs a l : get_location_in segs a = Some l ->
